@@ -9,6 +9,8 @@ import (
 
 	"github.com/go-openapi/spec"
 
+	rt "github.com/go-openapi/runtime"
+
 	"github.com/go-openapi/runtime/middleware"
 )
 
@@ -85,6 +87,8 @@ func (s *server) structFor(route *middleware.MatchedRoute) *paramStruct {
 		switch {
 		case p.In == "body":
 			t = reflect.TypeOf(map[string]interface{}{})
+		case p.Type == "file":
+			t = reflect.TypeOf(rt.File{})
 		case p.Type == "array" && p.Items != nil && p.Items.Type == "integer":
 			t = reflect.TypeOf([]int32{})
 		case p.Type == "array":
